@@ -17,10 +17,12 @@ KEYS = [b"a", b"a\x00", b"", b"\x00\x00", b"bb", b"k5", b"k6", b"zz"]
 
 
 # ---------------------------------------------------------------- callbacks
-def cb_update(item, *sketches, plan=None, die=None, record_dir=None, state=None):
-    """The user callback.  item = {"id": j, "keys": {key: mult}, "ret": r}.
+def cb_update(item, *sketches, table=None, plan=None, die=None, record_dir=None, state=None):
+    """The user callback.  The queue items are plain record NUMBERS 0..k-1 (so the first
+    one is falsy, like a shard index); table[j] = {"id": j, "keys": {key: mult}, "ret": r}.
     plan[j] in {"ok","before","after"}: raise before touching / after updating.
     die = (worker_id, k): that worker exits (os._exit model) on the k-th item it takes."""
+    item = table[item]
     j = item["id"]
     wid = sys._getframe(1).f_locals.get("worker_id")
     if record_dir is not None:
@@ -43,14 +45,17 @@ def cb_update(item, *sketches, plan=None, die=None, record_dir=None, state=None)
 
 
 def make_items(k, salt=0, width_keys=6):
-    """k items; item j adds 1-3 keys of a colliding alphabet with small multiplicities
-    and returns the distinct power of two 2^j."""
+    """Table of k records; record j adds 1-3 keys of a colliding alphabet with small
+    multiplicities and returns the distinct power of two 2^j.  For k >= 3 the last record
+    yields NO keys but is still counted (a document whose tokens were all filtered)."""
     items = []
     for j in range(k):
         ks = {}
         for t in range(1 + (j + salt) % 3):
             key = KEYS[(j * 2 + t + salt) % width_keys]
             ks[key] = ks.get(key, 0) + 1 + (j + t) % 3
+        if k >= 3 and j == k - 1:
+            ks = {}
         items.append({"id": j, "keys": ks, "ret": 2**j})
     return items
 
@@ -90,13 +95,19 @@ def snapshot(result, names):
     return out, result
 
 
-def run_sim(items, n_workers, names, assign=None, choices=(), cms_type="linear", kwargs=None,
-            horizon=30000, want_objects=False):
+def run_sim(table, n_workers, names, assign=None, choices=(), cms_type="linear", kwargs=None,
+            horizon=30000, want_objects=False, order=None, items=None):
     """One complete execution of the real parallel_add under the simulator.
+    table: list of records (make_items); the queue items are their numbers, in `order`
+    (default 0..k-1) - or `items` verbatim (used for the generator probe).
     Returns dict(outcome=..., error=..., sched=...)."""
     import sketchnu.helpers as H
 
     args = arg_combo(names, cms_type)
+    if items is None:
+        items = list(order) if order is not None else list(range(len(table)))
+    kwargs = dict(kwargs or {})
+    kwargs["table"] = table
     res = {"outcome": None, "error": None}
     sim = Sim(choices=choices, assign=assign, horizon=horizon)
     objs = None
